@@ -162,7 +162,7 @@ def run(ctx):
         traces.append(trace)
         progs = c.split(" : ", 1)[1]
         if viol != "-" or lost or verdict == "deadlock":
-            kind = "exclusion" if "exclusion" in viol else ("try_lock" if "try:" in viol else ("deadlock" if verdict == "deadlock" else "lost-update"))
+            kind = "panic" if "panic" in viol else "exclusion" if "exclusion" in viol else ("try_lock" if "try:" in viol else ("deadlock" if verdict == "deadlock" else "lost-update"))
             ctx.violation({"kind": kind}, {"case": c, "verdict": verdict, "oracle": viol, "lost_update": lost,
                                             "trace": trace.split(" ; ")[-60:],
                                             "how_to_replay": "echo '%s' | %s" % (c, exe)})
